@@ -72,6 +72,18 @@ def key_lists(K):
     return out
 
 
+def repeated_key_lists():
+    """Lists that mention a key twice, in the same or in different directions (the first mention decides)."""
+    out = []
+    for a, b in (('k', 'v'), ('v', 'k'), ('lk', 'nv')):
+        for d1, d2 in itertools.product([ASC, DESC], repeat=2):
+            out.append([(a, d1), (a, d2)])
+            for d3 in (ASC, DESC):
+                out.append([(a, d1), (b, d3), (a, d2)])
+                out.append([(b, d3), (a, d1), (a, d2)])
+    return out
+
+
 LIMITS_FULL = [(None, None), (True, None), (None, 0), (None, 1), (None, 2), (None, 99), (True, 1), (True, 2)]
 LIMITS_SMALL = [(None, None), (True, 2)]
 
@@ -119,7 +131,34 @@ def statements(K, tier):
             for distinct, limit in combos:
                 tag = f'{form}|{len(spec)}|{"".join("D" if d == DESC else "A" for _, d in spec)}|{"distinct" if distinct else ""}|{"limit" if limit is not None else ""}'
                 out.append((tag, make(spec, form, distinct, limit)))
+    for i, spec in enumerate(repeated_key_lists()):
+        for form in ('pos', 'name', 'expr', 'hidden', 'mixed'):
+            tag = f'{form}-repeated|{len(spec)}|{"".join("D" if d == DESC else "A" for _, d in spec)}||#{i}'
+            out.append((tag, make_repeated(spec, form)))
     return out
+
+
+def make_repeated(spec, form):
+    """Like make(), but a key mentioned twice is selected once and referenced twice."""
+    cd = cand()
+    targets = [(col('id'), 'id')]
+    pos = {}
+    ob = []
+    for i, (kn, d) in enumerate(spec):
+        f = form if form != 'mixed' else ('pos', 'name', 'expr', 'hidden')[i % 4]
+        if f == 'hidden':
+            ob.append(A.OrderBy(cand()[kn], d))
+            continue
+        if kn not in pos:
+            targets.append((cd[kn], 'c_' + kn))
+            pos[kn] = len(targets)
+        if f == 'pos':
+            ob.append(A.OrderBy(pos[kn], d))
+        elif f == 'name':
+            ob.append(A.OrderBy(col('c_' + kn), d))
+        else:
+            ob.append(A.OrderBy(cand()[kn], d))
+    return select(targets, from_='t', order_by=ob)
 
 
 def plain_statements():
